@@ -5,6 +5,7 @@ import (
 	"go/constant"
 	"go/token"
 	"go/types"
+	"math/big"
 
 	"golang.org/x/tools/go/ssa"
 )
@@ -141,6 +142,16 @@ func (f *Frame) instr(in ssa.Instruction) {
 		a := f.val(x.Addr)
 		v := f.val(x.Val)
 		f.nonNil(a[0], "store", x.Pos())
+		if nb, ok := f.reinterpretBytes(x.Addr, x.Val.Type()); ok {
+			// *(*uintN)(unsafe.Pointer(&b[i])) = v : little-endian store of N/8 bytes (amd64)
+			f.checkWrite(a[0], a[1], tb.BV(64, int64(nb)), "store", x.Pos())
+			bytes := make([]*Term, nb)
+			for k := 0; k < nb; k++ {
+				bytes[k] = tb.Extract(8*k+7, 8*k, v[0])
+			}
+			f.storeTo(a[0], a[1], bytes)
+			return
+		}
 		f.checkWrite(a[0], a[1], tb.BV(64, int64(len(v))), "store", x.Pos())
 		f.storeTo(a[0], a[1], v)
 	case *ssa.FieldAddr:
@@ -234,7 +245,26 @@ func (f *Frame) unop(x *ssa.UnOp) {
 		f.nonNil(v[0], "load", x.Pos())
 		mem := f.cur.mem
 		if f.stub != nil && f.stub.oldLoads[x] {
-			mem = f.stub.old
+			// old(...) reads the pre-state, except for the stub's own local objects (cells of
+			// captured parameters, copies of array parameters), which only exist in the stub's memory
+			local := false
+			if c, ok := v[0].ConstInt64(); ok && v[0].Op == "bv" {
+				_ = c
+				local = v[0].Val.Cmp(big.NewInt(freshBase+f.stub.startCtr)) > 0
+			}
+			if !local {
+				mem = f.stub.old
+			}
+		}
+		if nb, ok := f.reinterpretBytes(x.X, x.Type()); ok {
+			// *(*uintN)(unsafe.Pointer(&b[i])) : little-endian load of N/8 bytes (amd64)
+			m := mem.m[BV8.Key()]
+			acc := f.u.mc.Sel(m, v[0], v[1])
+			for k := 1; k < nb; k++ {
+				acc = tb.Concat(f.u.mc.Sel(m, v[0], tb.Add(v[1], tb.BV(64, int64(k)))), acc)
+			}
+			f.set(x, []*Term{acc})
+			return
 		}
 		res := f.loadFrom(mem, x.Type(), v[0], v[1])
 		f.set(x, res)
@@ -481,6 +511,33 @@ func (f *Frame) convert(x *ssa.Convert) {
 	default:
 		panic(unsupported(fmt.Sprintf("convert %s -> %s", x.X.Type(), x.Type())))
 	}
+}
+
+// reinterpretBytes recognises an access through *(*T)(unsafe.Pointer(p)) where p points to
+// bytes and T is an integer type; it returns the number of bytes accessed.
+func (f *Frame) reinterpretBytes(addr ssa.Value, vt types.Type) (int, bool) {
+	c, ok := addr.(*ssa.Convert)
+	if !ok {
+		return 0, false
+	}
+	origin, ok := f.u.unsafeCasts[c]
+	if !ok {
+		return 0, false
+	}
+	if origin == nil {
+		panic(unsupported("unsafe pointer cast of unknown origin in " + f.fn.String()))
+	}
+	target := c.Type().Underlying().(*types.Pointer).Elem()
+	if types.Identical(origin.Underlying(), target.Underlying()) {
+		return 0, false
+	}
+	ob, ok1 := origin.Underlying().(*types.Basic)
+	tb2, ok2 := target.Underlying().(*types.Basic)
+	if ok1 && ok2 && (ob.Kind() == types.Uint8 || ob.Kind() == types.Int8) && tb2.Info()&types.IsInteger != 0 {
+		s, _ := basicSort(tb2)
+		return s.W / 8, true
+	}
+	panic(unsupported("unsafe reinterpretation " + origin.String() + " -> " + target.String() + " in " + f.fn.String()))
 }
 
 // unsafeOrigin: element type of the pointer that was converted to unsafe.Pointer
